@@ -42,7 +42,7 @@ type c06Case struct {
 
 var c06EthVariants = []string{"unprotected", "chainid+1", "chainid-1", "from-other", "from-contract", "from-empty", "flip-v", "r+1", "s+1", "s-malleated", "payload-tamper", "nonce-1", "nonce+1"}
 var c06CosmosVariants = []string{"sig-by-other-key", "wrong-chain-id", "seq-1", "seq+1", "accnum+1"}
-var c06Kinds = []string{"transfer", "revert", "oog", "value-too-high", "block-gas"}
+var c06Kinds = []string{"transfer", "revert", "oog", "value-too-high", "block-gas", "create-ok", "create-revert", "create-value-too-high"}
 
 func c06World() *world.World {
 	cs := append(StdContracts(), world.Contract{Addr: AddrBurnBig, Code: asm.New().BurnGas(5000).Stop().Bytes()})
@@ -77,9 +77,19 @@ func c06Build(w *world.World, it c06Item, nonce uint64, base *big.Int) []byte {
 		return w.CosmosTx(a, accNum, seq, gas, fee, msg)
 	}
 	var to common.Address
+	var toPtr *common.Address = &to
+	var data []byte
 	value := big.NewInt(0)
 	gas := uint64(60000)
 	switch it.Kind {
+	case "create-ok":
+		toPtr, data, gas = nil, createOKInit(), 95000
+	case "create-revert":
+		toPtr, data, gas = nil, createFailInit(), 95000
+	case "create-value-too-high":
+		// a creation whose endowment the sender cannot afford: the state transition refuses it after admission, the nonce is consumed
+		toPtr, data, gas = nil, createOKInit(), 95000
+		value = new(big.Int).Mul(big.NewInt(1000), new(big.Int).Exp(big.NewInt(10), big.NewInt(18), nil))
 	case "transfer":
 		to, value, gas = AddrSink, big.NewInt(3), 21000
 	case "revert":
@@ -110,15 +120,15 @@ func c06Build(w *world.World, it c06Item, nonce uint64, base *big.Int) []byte {
 	}
 	var td ethtypes.TxData
 	if it.TxType == "dynamic" {
-		td = &ethtypes.DynamicFeeTx{ChainID: chainID, Nonce: n, GasTipCap: big.NewInt(0), GasFeeCap: base, Gas: gas, To: &to, Value: value}
+		td = &ethtypes.DynamicFeeTx{ChainID: chainID, Nonce: n, GasTipCap: big.NewInt(0), GasFeeCap: base, Gas: gas, To: toPtr, Value: value, Data: data}
 	} else {
-		td = &ethtypes.LegacyTx{Nonce: n, GasPrice: base, Gas: gas, To: &to, Value: value}
+		td = &ethtypes.LegacyTx{Nonce: n, GasPrice: base, Gas: gas, To: toPtr, Value: value, Data: data}
 	}
 	key, _ := ethcrypto.ToECDSA(a.Priv.Key)
 	var signer ethtypes.Signer = ethtypes.LatestSignerForChainID(chainID)
 	if it.Variant == "unprotected" {
 		signer = ethtypes.HomesteadSigner{}
-		td = &ethtypes.LegacyTx{Nonce: n, GasPrice: base, Gas: gas, To: &to, Value: value}
+		td = &ethtypes.LegacyTx{Nonce: n, GasPrice: base, Gas: gas, To: toPtr, Value: value, Data: data}
 	}
 	tx, err := ethtypes.SignNewTx(key, signer, td)
 	if err != nil {
@@ -128,9 +138,9 @@ func c06Build(w *world.World, it c06Item, nonce uint64, base *big.Int) []byte {
 	v, r, s := tx.RawSignatureValues()
 	rebuild := func(v, r, s *big.Int, val *big.Int) *ethtypes.Transaction {
 		if it.TxType == "dynamic" {
-			return ethtypes.NewTx(&ethtypes.DynamicFeeTx{ChainID: chainID, Nonce: n, GasTipCap: big.NewInt(0), GasFeeCap: base, Gas: gas, To: &to, Value: val, V: v, R: r, S: s})
+			return ethtypes.NewTx(&ethtypes.DynamicFeeTx{ChainID: chainID, Nonce: n, GasTipCap: big.NewInt(0), GasFeeCap: base, Gas: gas, To: toPtr, Value: val, Data: data, V: v, R: r, S: s})
 		}
-		return ethtypes.NewTx(&ethtypes.LegacyTx{Nonce: n, GasPrice: base, Gas: gas, To: &to, Value: val, V: v, R: r, S: s})
+		return ethtypes.NewTx(&ethtypes.LegacyTx{Nonce: n, GasPrice: base, Gas: gas, To: toPtr, Value: val, Data: data, V: v, R: r, S: s})
 	}
 	one := big.NewInt(1)
 	switch it.Variant {
@@ -466,7 +476,7 @@ func runC06(replay string) int {
 	run.Coverage["evaluations"] = len(cases)
 	run.Coverage["exhaustive"] = true
 	run.Coverage["max_depth"] = 3
-	run.Coverage["rule"] = fmt.Sprintf("A: 5 tx kinds × %d adversarial Ethereum encodings × {legacy, dynamic-fee} (+ %d Cosmos variants) at every position of 6 block shapes; B: byte-exact replays of every accepted tx kind at 7 later positions (same block, next block, two blocks later) and after every second tx kind. Every history with a rejected item is run twice (with / without the rejected items) and the AppHashes compared. distinct_nontrivial = histories containing ≥1 rejected item", len(c06EthVariants), len(c06CosmosVariants))
+	run.Coverage["rule"] = fmt.Sprintf("A: 8 tx kinds (transfer, revert, out-of-gas, value too high, block-gas-exhausting, create, reverting create, create with unaffordable endowment) × %d adversarial Ethereum encodings × {legacy, dynamic-fee} (+ %d Cosmos variants) at every position of 6 block shapes; B: byte-exact replays of every accepted tx kind at 7 later positions (same block, next block, two blocks later) and after every second tx kind. Every history with a rejected item is run twice (with / without the rejected items) and the AppHashes compared. distinct_nontrivial = histories containing ≥1 rejected item", len(c06EthVariants), len(c06CosmosVariants))
 	return run.Finish()
 }
 
